@@ -64,7 +64,17 @@ fn gen_case(sub: u64) -> (Case, Vec<String>) {
             placed.push(format!("{how}@{pos}"));
         }
     }
-    let pattern = if cfg.multi_line && rng.chance(1, 2) { ML_PATTERNS[rng.below(ML_PATTERNS.len())] } else { LINE_PATTERNS[rng.below(LINE_PATTERNS.len())] }.to_string();
+    // one case in four: a pattern that could match a NUL byte itself (the command line bans
+    // the byte from the regex whenever detection is on; the matcher is built the same way here)
+    const NUL_CAPABLE: [&str; 7] = ["[^a]oo", r"foo\W", r"(?s-u)o.", r"\Sfoo", r"o\x00?", r"(?-u:[\x00-\x20])foo", r"(?s)foo.*?bar"];
+    let pattern = if rng.chance(1, 4) {
+        NUL_CAPABLE[rng.below(NUL_CAPABLE.len())]
+    } else if cfg.multi_line && rng.chance(1, 2) {
+        ML_PATTERNS[rng.below(ML_PATTERNS.len())]
+    } else {
+        LINE_PATTERNS[rng.below(LINE_PATTERNS.len())]
+    }
+    .to_string();
     (Case { data, pattern, cfg }, placed)
 }
 
